@@ -476,6 +476,33 @@ func runC17(w *core.W) {
 		}
 	}
 	w.ExhaustivePart(fmt.Sprintf("%d subject strings x every needle / substring / position -3..len+3 / pad / pattern", len(c17Strings)))
+	// 1b. case mapping of every code point that has a case at all (upper, lower or title form other than itself),
+	// eight to a subject, between ASCII letters
+	{
+		var cased []rune
+		for cp := rune(0x80); cp <= unicode.MaxRune; cp++ {
+			if cp >= 0xD800 && cp <= 0xDFFF {
+				continue
+			}
+			u, l := unicode.ToUpper(cp), unicode.ToLower(cp)
+			if (u != cp || l != cp || unicode.ToTitle(cp) != cp) && unicode.ToUpper(u) == u && unicode.ToLower(l) == l {
+				cased = append(cased, cp)
+			}
+		}
+		for ci := 0; ci < len(cased); ci += 8 {
+			if !w.Mine(ci / 8) {
+				continue
+			}
+			end := ci + 8
+			if end > len(cased) {
+				end = len(cased)
+			}
+			s := "a" + string(cased[ci:end]) + "Z"
+			run(&StrFnCase{Fn: "upper", S: s})
+			run(&StrFnCase{Fn: "lower", S: s})
+			w.Count("cased_code_point_subjects")
+		}
+	}
 	// 2. random
 	for i, n := 0, w.Pick(12000, 200000); i < n; i++ {
 		s := rs()
